@@ -521,6 +521,69 @@ def lead_item(rep, k):
     return {"top": "e10", "nodes": nodes}
 
 
+ACE_SENTENCES = ["It rained.", "Kim barks ; loudly", "SENT: nested", "NOTE: 3 readings", "[ a bracket", "x", "dogs (bark)",
+                 "semi;colon", "SKIP: me"]
+ACE_CARGS = ["a;b", "x ; y", "SENT: no", "NOTE: 1 readings, added", "SKIP: x", ";", " ; z", "Kim", "[ SENT: ]"]
+_DERIV = ' ;  (545 sb-hd_mc_c 1.2 0 2 (71 it 0.9 0 1 ("it" 46 "token [ +FORM \\"it\\" ]")))'
+
+
+def ace_layout_default(n):
+    return [1] * n
+
+
+def ace_texts(objs, layout):
+    """ACE stdout for the readings `objs` grouped by `layout` (a list of readings-per-sentence counts and "skip"
+    entries): `SENT:` line, one line per reading (`[ mrs ] ;  derivation`), `NOTE:` line, two blank lines; `SKIP:`
+    line and two blank lines for a skipped sentence.  Returns (one single-reading text per reading, whole text)."""
+    sm = util.import_codec("simplemrs")
+    layout = ace_layout_default(len(objs)) if layout is None else layout
+    singles, out, k, sno = [], [], 0, 0
+    for b in layout:
+        sent = ACE_SENTENCES[sno % len(ACE_SENTENCES)] + (" %d" % sno if sno >= len(ACE_SENTENCES) else "")
+        sno += 1
+        if b == "skip":
+            out.append("SKIP: %s\n\n\n" % sent)
+            continue
+        out.append("SENT: %s\n" % sent)
+        for _ in range(b):
+            line = sm.encode(objs[k], indent=None) + _DERIV + "\n"
+            k += 1
+            out.append(line)
+            singles.append("SENT: %s\n%s" % (sent, line))
+        out.append("NOTE: %d readings, added 351 / 20 edges to chart (16 fully instantiated)\tRAM: 1118k\n\n\n" % b)
+    assert k == len(objs), (k, len(objs), layout)
+    out.append("NOTE: parsed %d / %d sentences, avg 1118k, time 0.01857s\n" % (sum(1 for b in layout if b != "skip" and b), len(layout)))
+    return singles, "".join(out)
+
+
+def ace_reading_alone(single):
+    """the oracle's own reading of a one-reading ACE text: the SimpleMRS before ' ;  ' with the sentence of the
+    SENT: line as its surface string"""
+    first, _, rest = single.partition("\n")
+    assert first.startswith("SENT: ")
+    m = util.import_codec("simplemrs").decode(rest.split(" ;  (")[0].strip())
+    m.surface = first[len("SENT: "):].rstrip()
+    return m
+
+
+def gen_ace_layout(rng, n):
+    """split n readings over sentences with 0, 1, 2, 3+ readings, with SKIP: lines in between"""
+    layout, left = [], n
+    while left > 0:
+        r = rng.random()
+        if r < 0.15:
+            layout.append("skip")
+        elif r < 0.3:
+            layout.append(0)
+        else:
+            b = min(left, rng.choice([1, 1, 2, 2, 3, 4]))
+            layout.append(b)
+            left -= b
+    if rng.random() < 0.3:
+        layout.append(rng.choice([0, "skip"]))
+    return layout
+
+
 DUP_MODES = ["adjacent", "nonadjacent", "allsame"]
 
 
@@ -585,7 +648,7 @@ def dir_layout(n):
 
 class C20(Check):
     pid = "C20"
-    quick_cases = 1000
+    quick_cases = 600
     thorough_cases = 6000
     # integration layer (composition theorems + their own correspondence run): harness/integration.py
     props_modules = ["Verif.C20.Props", "Verif.Integration.Props"]
@@ -795,6 +858,13 @@ class C20(Check):
             "select": rng.randrange(len(SELECTS)),
             "dup": dup or "none",
         }
+        if src == "ace":
+            case["ace_layout"] = gen_ace_layout(rng, len(items))
+            if rng.random() < 0.6:
+                for it in items:
+                    eps = it["rels"]
+                    for ep in eps[:1] + [e for e in eps[1:] if e["carg"] is not None]:
+                        ep["carg"] = rng.choice(ACE_CARGS)
         case.update(over)
         return case
 
@@ -846,6 +916,61 @@ class C20(Check):
         #     XML/JSON sources beyond 16 KiB and 64 KiB, through every input kind, to same- and cross-representation
         #     targets with and without '-lines'
         yield from self.long_cases(rng)
+        # --- shapes of earlier seeded changes, kept deterministic
+        kk = 0
+        #   (a) profile rows with identical strings in the pattern A B B A: 4 structures, for every query and source
+        for q in range(len(SELECTS)):
+            for s in ("simplemrs", "mrx", "mrsjson", "dmrx", "dmrsjson", "simpledmrs", "edsjson", "eds", "indexedmrs"):
+                kk += 1
+                if tier == "quick" and (kk + q) % 3:
+                    continue
+                ts = [x for x in TARGETS if supported(s, x)]
+                t = ts[kk % len(ts)]
+                c = self.mk_case(rng, s, t, n=2, dup="none", input="dir", src=SPELLINGS[s][0], select=q,
+                                 src_indent=[None, 2][kk % 2])
+                a, b = c["items"]
+                c["items"] = [a, b, copy.deepcopy(b), copy.deepcopy(a)]
+                c["dup"] = "abba"
+                yield c
+        #   (b) '-lines' targets with properties and/or lnk switched off
+        plain = {"mrs": "simplemrs", "dmrs": "dmrsjson", "eds": "edsjson"}
+        for t in TARGETS:
+            for pr, ln in ((False, True), (True, False), (False, False)):
+                kk += 1
+                ss = [x for x in SOURCES if supported(x, t)]
+                yield self.mk_case(rng, plain[REP[t]] if kk % 2 else ss[kk % len(ss)],
+                                   t, n=2 + kk % 2, tgt=SPELLINGS[t][0] + "-lines", properties=pr, lnk=ln,
+                                   indent=[None, 2][kk % 2])
+        #   (c) Indexed MRS source (with the SEM-I) to every other target, plain and '-lines'
+        for t in WRITABLE:
+            for ln in (False, True):
+                kk += 1
+                yield self.mk_case(rng, "indexedmrs", t, n=2 + kk % 3, src="indexed-mrs", tgt=t + ("-lines" if ln else ""),
+                                   input=("path", "stream", "file", "pathobj", "dir")[kk % 5], indent=[None, 2][kk % 2])
+        #   (d) profile fields that hold one-item documents of the XML / JSON formats
+        for s in CHUNKED_SOURCES:
+            for q in (0, 2, 3):
+                for si in (None, 2):
+                    kk += 1
+                    ts = [x for x in TARGETS if supported(s, x)]
+                    t = ts[kk % len(ts)]
+                    yield self.mk_case(rng, s, t, n=4, input="dir", src=SPELLINGS[s][0], select=q, src_indent=si)
+        # --- ACE sources: 0, 1, 2, 3+ readings per SENT: line (mixed), SKIP: lines, sentences without a reading between
+        #     others, ';' / SENT: / NOTE: inside quoted constants; targets that carry the surface string, lnk on and off
+        kk = 0
+        for layout in ([2], [3], [1, 2], [2, 1], [0, 2, 0], [1, 0, 3, "skip", 2], ["skip", 4], [0], [], ["skip"],
+                       [1, 1, 1], [2, "skip", 0, 2], [5]):
+            nn = sum(b for b in layout if b != "skip")
+            for t in ("simplemrs", "mrx", "mrs-json", "dmrx", "eds-json", "simplemrs-lines", "mrx-lines", "simpledmrs"):
+                kk += 1
+                if len(layout) > 1 and kk % 2 and tier == "quick":
+                    continue
+                c = self.mk_case(rng, "ace", norm_name(t)[0], n=nn, src=rng.choice(SPELLINGS["ace"]), tgt=t,
+                                 lnk=bool(kk % 3), properties=bool(kk % 4), indent=[None, 2][kk % 2],
+                                 input=("path", "stream", "file", "pathobj")[kk % 4],
+                                 dup=(["none", "none"] + DUP_MODES)[kk % 5] if nn >= 2 else "none")
+                c["ace_layout"] = list(layout) if len(c["items"]) == nn else gen_ace_layout(rng, len(c["items"]))
+                yield c
         # --- Indexed MRS (items licensed by the harness's SEM-I) as source and as target
         kk = 0
         for s, t in (("indexedmrs", "simplemrs"), ("simplemrs", "indexedmrs"), ("indexedmrs", "indexedmrs-lines"),
@@ -897,6 +1022,8 @@ class C20(Check):
                              input=kinds[k % 8], select=k % 2, src_indent=None, indent=[None, 2][k % 2])
             c["items"] = items
             c["long"] = True
+            if s == "ace":
+                c["ace_layout"] = gen_ace_layout(lrng, len(items))
             c.update(over)
             return c
         for s in LEXER_SOURCES:
@@ -982,10 +1109,10 @@ class C20(Check):
         sc = codec(src)
         objs = self._objs(case)
         if src == "ace":
-            sm = codec("simplemrs")
-            singles = ["SENT: sentence %d\n%s ;  (1 root 0.5 0 1 (\"x\"))\nNOTE: 1 readings\n\n\n"
-                       % (i, sm.encode(o, indent=None)) for i, o in enumerate(objs)]
-            return singles, "".join(singles)
+            layout = case.get("ace_layout")
+            if layout is not None and sum(b for b in layout if b != "skip") != len(objs):
+                layout = None          # (a shrunk case: one reading per sentence)
+            return ace_texts(objs, layout)
         if src_lines:
             singles = [sc.encode(o, indent=None) for o in objs]
             return singles, "".join(s + "\n" for s in singles)
@@ -1115,7 +1242,10 @@ class C20(Check):
             warnings.simplefilter("ignore")
             for i in idx:
                 try:
-                    x = sc.decode(singles[i]) if (sl or src == "ace") else sc.loads(singles[i])[0]
+                    if src == "ace":
+                        x = ace_reading_alone(singles[i])
+                    else:
+                        x = sc.decode(singles[i]) if sl else sc.loads(singles[i])[0]
                 except Exception as e:
                     res.append(("own", "read:" + type(e).__name__))
                     continue
@@ -1369,6 +1499,9 @@ class C20(Check):
         inc("input:" + case["input"])
         inc("indent:" + str(case["indent"]))
         inc("dup:" + case.get("dup", "none"))
+        if s == "ace":
+            for b in (case.get("ace_layout") or []):
+                inc("ace:sentence with %s" % ("SKIP" if b == "skip" else "%s readings" % (b if b < 3 else "3+")))
         if case.get("long"):
             inc("long")
             inc("long:src=" + s + ":" + case["input"])
